@@ -384,6 +384,11 @@ func (s *FileSystemSigner) loadKeys(passphrase []byte) error {
 		return fmt.Errorf("failed to unmarshal public key: %w", err)
 	}
 
+	// The public key is stored in clear next to the encrypted private key: it must belong to it
+	if !privKey.GetPublic().Equals(pubKey) {
+		return fmt.Errorf("invalid key file: public key does not match the private key")
+	}
+
 	// Set the keys
 	s.privateKey = privKey
 	s.publicKey = pubKey
